@@ -86,6 +86,68 @@ func collect(f func(fn gofs.WalkDirFunc) error) ([]walked, error) {
 	return out, err
 }
 
+// scribble overwrites every field of a stat a consumer was handed; what it was handed is
+// its own (a map function is documented to rewrite it), so no later walk may see this.
+func scribble(st *types.Stat) {
+	st.Path, st.Linkname = "scribbled/"+st.Path, "scribbled"
+	st.Uid, st.Gid, st.Mode, st.Size, st.ModTime = 4242, 4242, st.Mode^0777, -1, 1
+	for k := range st.Xattrs {
+		st.Xattrs[k] = []byte("scribbled")
+	}
+}
+
+// collectScribbling is collect for a consumer that rewrites the stats it receives.
+func collectScribbling(f func(fn gofs.WalkDirFunc) error) ([]walked, error) {
+	var out []walked
+	err := f(func(p string, e gofs.DirEntry, err error) error {
+		if err != nil {
+			return err
+		}
+		fi, err := e.Info()
+		if err != nil {
+			return err
+		}
+		st, ok := fi.Sys().(*types.Stat)
+		if !ok {
+			return fmt.Errorf("%s: no stat", p)
+		}
+		out = append(out, walked{p, st.Clone()})
+		scribble(st)
+		return nil
+	})
+	return out, err
+}
+
+// reentrantWalks: for every callback position i of a walk of `outer`, a second complete walk of `inner` on the
+// same FS value runs inside the i-th callback; both walks must still report what a lone walk reports.
+func reentrantWalks(what string, fsv fsutil.FS, outer string, wantOuter []*types.Stat, inner string, wantInner []*types.Stat) (string, string) {
+	ctx := context.Background()
+	for i := 0; i < len(wantOuter); i++ {
+		var in []walked
+		var inErr error
+		k := 0
+		got, err := collect(func(fn gofs.WalkDirFunc) error {
+			return fsv.Walk(ctx, outer, func(p string, e gofs.DirEntry, err error) error {
+				if k == i {
+					in, inErr = collect(func(fn2 gofs.WalkDirFunc) error { return fsv.Walk(ctx, inner, fn2) })
+				}
+				k++
+				return fn(p, e, err)
+			})
+		})
+		if err != nil || inErr != nil {
+			return "walk-failed", fmt.Sprintf("%s: walk of %q with a walk of %q inside callback %d: %v %v", what, outer, inner, i, err, inErr)
+		}
+		if k, m := compareWalk(fmt.Sprintf("%s(%q) while a walk of %q ran inside its callback #%d", what, outer, inner, i), got, wantOuter); k != "" {
+			return "reentrant-" + k, m
+		}
+		if k, m := compareWalk(fmt.Sprintf("%s(%q) run inside callback #%d of a walk of %q", what, inner, i, outer), in, wantInner); k != "" {
+			return "reentrant-" + k, m
+		}
+	}
+	return "", ""
+}
+
 // compareWalk checks a callback sequence against the expected stats.
 func compareWalk(what string, got []walked, want []*types.Stat) (string, string) {
 	for i := 1; i < len(got); i++ {
@@ -209,6 +271,42 @@ func judgeC09(c c09Case) (string, string) {
 				return k, m
 			}
 		}
+		// the same FS value again, after a consumer that rewrote every stat it was handed
+		if _, err := collectScribbling(func(fn gofs.WalkDirFunc) error { return fs.Walk(ctx, "/", fn) }); err != nil {
+			return "walk-failed", err.Error()
+		}
+		got, err = collect(func(fn gofs.WalkDirFunc) error { return fs.Walk(ctx, "/", fn) })
+		if err != nil {
+			return "walk-failed", err.Error()
+		}
+		if k, m := compareWalk("FS.Walk after a consumer rewrote the stats of an earlier walk", got, want); k != "" {
+			return "history-" + k, m
+		}
+		// two walks of one FS value that overlap: at every callback position; inner walk of the root, and for
+		// trees with hard links of every directory as well
+		inner := []string{"/"}
+		hasHL := false
+		for _, n := range snap {
+			hasHL = hasHL || n.HL != 0
+		}
+		if hasHL {
+			for _, n := range snap {
+				if n.Kind == fsmodel.Dir {
+					inner = append(inner, n.Path)
+				}
+			}
+		}
+		if len(snap) <= 12 {
+			for _, in := range inner {
+				wantIn := want
+				if in != "/" {
+					wantIn = memfs.Stats(snap.Under(in))
+				}
+				if k, m := reentrantWalks("FS.Walk", fs, "/", want, in, wantIn); k != "" {
+					return k, m
+				}
+			}
+		}
 		return "", ""
 	}
 	// composite FS of named sub-roots, each over the same directory
@@ -251,6 +349,74 @@ func judgeC09(c c09Case) (string, string) {
 	}
 	if k, m := compareWalk("SubDirFS.Walk", got, wantSub); k != "" {
 		return "subdir-" + k, m
+	}
+	// a consumer that rewrites what it is handed (directly, and as the Map function of a filter on top), then
+	// the composite again: neither the next walk nor the caller's own Dir values may have changed
+	if _, err := collectScribbling(func(fn gofs.WalkDirFunc) error { return sfs.Walk(ctx, "/", fn) }); err != nil {
+		return "walk-failed", err.Error()
+	}
+	mfs, err := fsutil.NewFilterFS(sfs, &fsutil.FilterOpt{Map: func(p string, st *types.Stat) fsutil.MapResult {
+		st.Uid, st.Gid, st.Mode = 4242, 4242, st.Mode&^0777|0700
+		return fsutil.MapResultKeep
+	}})
+	if err != nil {
+		return "infra", err.Error()
+	}
+	if _, err := collect(func(fn gofs.WalkDirFunc) error { return mfs.Walk(ctx, "/", fn) }); err != nil {
+		return "walk-failed", "mapped: " + err.Error()
+	}
+	got, err = collect(func(fn gofs.WalkDirFunc) error { return sfs.Walk(ctx, "/", fn) })
+	if err != nil {
+		return "walk-failed", err.Error()
+	}
+	if k, m := compareWalk("SubDirFS.Walk after consumers rewrote the stats of earlier walks", got, wantSub); k != "" {
+		return "subdir-history-" + k, m
+	}
+	for _, d := range dirs {
+		if d.Stat.Uid != 0 || d.Stat.Gid != 0 || d.Stat.Mode != uint32(os.ModeDir|0755) || d.Stat.ModTime != 12345 || strings.Contains(d.Stat.Path, "/") {
+			return "subdir-history-caller-stat", fmt.Sprintf("the Dir.Stat the caller passed for %q was modified by walking: %v", d.Stat.Path, d.Stat)
+		}
+	}
+	// the composite as a sub-root of another composite, walked twice
+	outer, err := fsutil.SubDirFS([]fsutil.Dir{{Stat: &types.Stat{Path: "o", Mode: uint32(os.ModeDir | 0711), ModTime: 777}, FS: sfs}})
+	if err != nil {
+		return "subdirfs-failed", err.Error()
+	}
+	wantOuter := []*types.Stat{{Path: "o", Mode: uint32(os.ModeDir | 0711), ModTime: 777}}
+	for _, st := range wantSub {
+		st = st.Clone()
+		if st.Linkname != "" {
+			if os.FileMode(st.Mode)&os.ModeSymlink != 0 {
+				if strings.HasPrefix(st.Linkname, "/") {
+					st.Linkname = "/o" + st.Linkname
+				}
+			} else {
+				st.Linkname = "o/" + st.Linkname
+			}
+		}
+		st.Path = "o/" + st.Path
+		wantOuter = append(wantOuter, st)
+	}
+	for round := 1; round <= 2; round++ {
+		got, err = collect(func(fn gofs.WalkDirFunc) error { return outer.Walk(ctx, "/", fn) })
+		if err != nil {
+			return "walk-failed", "nested composite: " + err.Error()
+		}
+		if k, m := compareWalk(fmt.Sprintf("SubDirFS(SubDirFS).Walk, walk %d", round), got, wantOuter); k != "" {
+			return "subdir-nested-" + k, m
+		}
+	}
+	got, err = collect(func(fn gofs.WalkDirFunc) error { return sfs.Walk(ctx, "/", fn) })
+	if err != nil {
+		return "walk-failed", err.Error()
+	}
+	if k, m := compareWalk("SubDirFS.Walk after it was walked as a sub-root", got, wantSub); k != "" {
+		return "subdir-history-" + k, m
+	}
+	if len(wantSub) <= 24 {
+		if k, m := reentrantWalks("SubDirFS.Walk", sfs, "/", wantSub, "/", wantSub); k != "" {
+			return "subdir-" + k, m
+		}
 	}
 	return "", ""
 }
